@@ -543,7 +543,9 @@ def inlinable_def(h):
     if a.vararg or a.kwarg:
         return False
     for d in list(a.defaults) + [d for d in a.kw_defaults if d is not None]:
-        if not isinstance(d, ast.Constant):
+        # a constant, or a module-level name (a function / constant that is bound once: the same object at definition
+        # time and at call time)
+        if not isinstance(d, (ast.Constant, ast.Name)):
             return False
     for n in iter_own(list(h.body)):
         if isinstance(n, (ast.Yield, ast.YieldFrom, ast.Await)):
@@ -1692,6 +1694,54 @@ def eliminate_aliases(tree):
     return changed
 
 
+def beta_reduce_lambda_temporaries(tree):
+    """`h__p = lambda a: E` (a temporary introduced for a callable parameter of an inlined helper, bound once) followed by
+    calls `h__p(x)` with simple arguments  ->  `E[a := x]`."""
+    changed = 0
+    for f in [x for x in ast.walk(tree) if isinstance(x, _FUNC_NODES)]:
+        for st in [x for x in iter_own(list(f.body)) if isinstance(x, ast.Assign)]:
+            if not (len(st.targets) == 1 and isinstance(st.targets[0], ast.Name) and "__" in st.targets[0].id and isinstance(st.value, ast.Lambda)):
+                continue
+            name, lam = st.targets[0].id, st.value
+            a = lam.args
+            if a.vararg or a.kwarg or a.kwonlyargs or a.defaults or _assign_count(f, name) != 1:
+                continue
+            ps = [x.arg for x in a.posonlyargs + a.args]
+            uses = [n for n in ast.walk(f) if isinstance(n, ast.Name) and n.id == name and n is not st.targets[0]]
+            calls = [n for n in ast.walk(f) if isinstance(n, ast.Call) and isinstance(n.func, ast.Name) and n.func.id == name]
+            if not calls or len(uses) != len(calls):
+                continue
+            if any(c.keywords or len(c.args) != len(ps) or not all(is_pure_simple(x) for x in c.args) for c in calls):
+                continue
+            # free names of the lambda body must mean the same at the call sites (no shadowing by comprehension targets etc.)
+            body_free = {n.id for n in ast.walk(lam.body) if isinstance(n, ast.Name)} - set(ps)
+            bad = False
+            for sc in [y for y in ast.walk(f) if isinstance(y, _SCOPE_NODES) and y is not f and y is not lam]:
+                if any(c2 is c for c in calls for c2 in ast.walk(sc)) and (bound_names(sc) & body_free):
+                    bad = True
+            if bad:
+                continue
+
+            class R(ast.NodeTransformer):
+                def visit_Call(self, n):
+                    self.generic_visit(n)
+                    if isinstance(n.func, ast.Name) and n.func.id == name:
+                        return ast.copy_location(Renamer(dict(zip(ps, n.args))).visit(copy.deepcopy(lam.body)), n)
+                    return n
+            for i, x in enumerate(f.body):
+                if x is st:
+                    continue
+                f.body[i] = R().visit(x)
+            for _o, _f, lst in stmt_lists(f):
+                if any(x is st for x in lst):
+                    lst.remove(st)
+                    if not lst:
+                        lst.append(_loc(ast.Pass(), st))
+                    break
+            changed += 1
+    return changed
+
+
 def forward_result_temporaries(tree):
     """`h__result = E` immediately followed by `return h__result` / `x = h__result` / `if h__result:` where the
     temporary (introduced by the inliner) has no other use  ->  the expression is used directly."""
@@ -1747,7 +1797,7 @@ def inline_module_helpers(tree, counter, modname, known, everything=False):
     for _ in range(4):
         cands = []
         for s in tree.body:
-            if isinstance(s, ast.FunctionDef) and (everything or s.name not in known):
+            if isinstance(s, ast.FunctionDef) and (everything or (s.name not in known and s.name not in _ALL_KNOWN[0])):
                 cands.append(s)
         n = inline_helpers(tree, cands, counter, is_module=True) if cands else 0
         total += n
@@ -1840,7 +1890,12 @@ def inline_cross_module_helpers(trees, known, counter):
     done = 0
     for aname, atree in list(trees.items()):
         abind = _module_bindings(atree)
-        for h in [x for x in atree.body if isinstance(x, ast.FunctionDef) and x.name not in known.get(aname, set())]:
+        everywhere = set()
+        for k_, v_ in known.items():
+            if "::" not in k_:
+                everywhere |= set(v_)
+        # a function that merely moved to another module is not a new helper
+        for h in [x for x in atree.body if isinstance(x, ast.FunctionDef) and x.name not in known.get(aname, set()) and x.name not in everywhere]:
             if not inlinable_def(h):
                 continue
             inlined_everywhere = True
@@ -1862,7 +1917,8 @@ def inline_cross_module_helpers(trees, known, counter):
                 bbind = _module_bindings(trial)
                 extra_imports = []
                 ok = True
-                for g in sorted(free_names(h)):
+                default_names = {d.id for d in list(h.args.defaults) + [d for d in h.args.kw_defaults if d is not None] if isinstance(d, ast.Name)}
+                for g in sorted(free_names(h) | default_names):
                     if hasattr(_builtins, g):
                         continue
                     src = abind.get(g)
@@ -1920,11 +1976,18 @@ def load_known_funcs():
         return {}
 
 
+_ALL_KNOWN = [set()]
+
+
 def canonicalise(trees, level, known_funcs=None):
     """trees: {modname: ast.Module} (modified in place on deep copies by the caller).  Returns a log of what was done."""
     log = []
     if level <= 0:
         return log
+    _ALL_KNOWN[0] = set()
+    for k_, v_ in (known_funcs or {}).items():
+        if "::" not in k_:
+            _ALL_KNOWN[0] |= set(v_)
     if level >= 2:
         n_x = inline_cross_module_helpers(trees, known_funcs or {}, itertools.count(1000))
         n_pm = inline_private_methods(trees, known_funcs or {}, itertools.count(2000))
@@ -1956,6 +2019,7 @@ def canonicalise(trees, level, known_funcs=None):
         n_alias = eliminate_aliases(tree) if (n_inl or n_st or n_obj or n_mod or n_rec) else 0
         if n_inl or n_obj or n_mod:
             forward_result_temporaries(tree)
+            beta_reduce_lambda_temporaries(tree)
         drop_redundant_pass(tree)
         if mt.changed or n_acq or n_inl or n_st or n_mod or n_obj or n_rec:
             ast.fix_missing_locations(tree)
